@@ -5,11 +5,11 @@ use crate::mpcx::Owner;
 use crate::vals;
 use ciphercore_base::custom_ops::CustomOperation;
 use ciphercore_base::data_types::{
-    array_type, named_tuple_type, scalar_type, vector_type, Type, BIT, INT32, UINT64, UINT8,
+    array_type, named_tuple_type, scalar_type, tuple_type, vector_type, Type, BIT, INT32, UINT64, UINT8,
 };
 use ciphercore_base::data_values::Value;
 use ciphercore_base::errors::Result;
-use ciphercore_base::graphs::{create_context, Context, Graph, JoinType};
+use ciphercore_base::graphs::{create_context, Context, Graph, GraphAnnotation, JoinType, SliceElement};
 use ciphercore_base::ops::comparisons::{Equal, GreaterThan, LessThanEqualTo};
 use ciphercore_base::ops::min_max::{Max, Min};
 use ciphercore_base::ops::multiplexer::Mux;
@@ -198,6 +198,71 @@ pub fn programs(thorough: bool) -> Vec<Prog> {
         g.iterate(f, s0, xs)?.set_as_output()?;
         Ok(g)
     }));
+    // Iterate bodies that carry an inlining annotation: the depth-optimised modes replace them by logarithmic-depth
+    // constructions (one-bit state, small state with K = 3 bits, associative operation); 5 steps each
+    v.push(prog("iterate one-bit state a*s+b over 5", "Iterate:one-bit", |c| {
+        let bt = array_type(vec![2], BIT);
+        let f = c.create_graph()?;
+        let s = f.input(bt.clone())?;
+        let x = f.input(tuple_type(vec![bt.clone(), bt.clone()]))?;
+        let ns = x.tuple_get(0)?.multiply(s.clone())?.add(x.tuple_get(1)?)?;
+        f.create_tuple(vec![ns, s])?.set_as_output()?;
+        f.add_annotation(GraphAnnotation::OneBitState)?;
+        f.finalize()?;
+        let g = c.create_graph()?;
+        let s0 = g.input(bt.clone())?;
+        let xs = g.input(vector_type(5, tuple_type(vec![bt.clone(), bt])))?;
+        g.iterate(f, s0, xs)?.set_as_output()?;
+        Ok(g)
+    }));
+    v.push(prog("iterate 3-bit counter (small state) over 5", "Iterate:small-state", |c| {
+        let bt = array_type(vec![2], BIT);
+        let st = array_type(vec![2, 3], BIT);
+        let f = c.create_graph()?;
+        let s = f.input(st.clone())?;
+        let x = f.input(bt.clone())?;
+        let bit = |i: i64| s.get_slice(vec![SliceElement::Ellipsis, SliceElement::SingleIndex(i)]);
+        let (b0, b1, b2) = (bit(0)?, bit(1)?, bit(2)?);
+        let c0 = b0.multiply(x.clone())?;
+        let c1 = b1.multiply(c0.clone())?;
+        let wrap = b2.multiply(c1.clone())?;
+        let ns = f.stack(vec![b0.add(x)?, b1.add(c0)?, b2.add(c1)?], vec![3])?.permute_axes(vec![1, 0])?;
+        f.create_tuple(vec![ns, wrap])?.set_as_output()?;
+        f.add_annotation(GraphAnnotation::SmallState)?;
+        f.finalize()?;
+        let g = c.create_graph()?;
+        let s0 = g.input(st)?;
+        let xs = g.input(vector_type(5, bt))?;
+        g.iterate(f, s0, xs)?.set_as_output()?;
+        Ok(g)
+    }));
+    v.push(prog("iterate associative 2x2 matrix product over 5", "Iterate:associative", |c| {
+        let mt = array_type(vec![2, 2], UINT64);
+        let f = c.create_graph()?;
+        let s = f.input(mt.clone())?;
+        let x = f.input(mt.clone())?;
+        let ns = s.matmul(x)?;
+        f.create_tuple(vec![ns.clone(), ns])?.set_as_output()?;
+        f.add_annotation(GraphAnnotation::AssociativeOperation)?;
+        f.finalize()?;
+        let g = c.create_graph()?;
+        let s0 = g.input(mt.clone())?;
+        let xs = g.input(vector_type(5, mt))?;
+        g.iterate(f, s0, xs)?.set_as_output()?;
+        Ok(g)
+    }));
+    // the annotated iterations: the inlining mode is the dimension that matters; reduced owner / output cross
+    for p in v.iter_mut() {
+        if p.class.starts_with("Iterate:") {
+            p.owners = Some(vec![
+                vec![Owner::P(0), Owner::P(1)],
+                vec![Owner::P(2), Owner::P(2)],
+                vec![Owner::Shared, Owner::P(1)],
+                vec![Owner::P(0), Owner::Public],
+            ]);
+            p.outs = Some(vec![vec![], vec![1], vec![2, 0]]);
+        }
+    }
     // sort: 3 rows, 2-bit key, payload
     {
         let mut p = prog("sort 3 rows by 2-bit key", "Sort", |c| {
